@@ -14,6 +14,7 @@ pub mod c_params;
 pub mod c_sig;
 pub mod c_trait;
 pub mod c_input;
+pub mod c_grammar;
 
 #[derive(Clone, Copy, PartialEq, Eq)]
 pub enum Tier {
@@ -311,12 +312,26 @@ pub fn all_contracts() -> Vec<Contract> {
     v.extend(c_sig::contracts());
     v.extend(c_trait::contracts());
     v.extend(c_input::contracts());
+    v.extend(c_grammar::contracts());
     v
 }
 
 pub fn main() {
     let args: Vec<String> = std::env::args().collect();
     let get = |k: &str| args.iter().position(|a| a == k).and_then(|i| args.get(i + 1)).cloned();
+    // `--expand <attr> <item>`: print the real expansion of one input (used by `vx replay` to show the output)
+    if let Some(i) = args.iter().position(|a| a == "--expand") {
+        let out = expand(Variant::Entrait, args.get(i + 1).map(|s| s.as_str()).unwrap_or(""), args.get(i + 2).map(|s| s.as_str()).unwrap_or(""));
+        match syn::parse2::<syn::File>(out.clone()) {
+            Ok(f) => {
+                for it in f.items {
+                    println!("{}\n", tt_string(&it));
+                }
+            }
+            Err(_) => println!("{}", out),
+        }
+        return;
+    }
     let prop = get("--prop").unwrap_or_default();
     let tier = if get("--tier").as_deref() == Some("thorough") { Tier::Thorough } else { Tier::Quick };
     let out = get("--out").unwrap_or_else(|| "result.json".into());
